@@ -80,6 +80,12 @@ def _pd_cases():
     out.append(("multiindex_level_dtype", "schema", "dfs",
                 lambda: pa.DataFrameSchema({"a": C(int)}, index=pa.MultiIndex([pa.Index(int, name="k0"), pa.Index(str, name="k1")])),
                 lambda: pd.DataFrame({"a": [1, 2]}, index=mi_bad_dtype())))
+    out.append(("wrong_index_name", "schema", "dfs",
+                lambda: pa.DataFrameSchema({"a": C(int)}, index=pa.Index(int, name="idx")),
+                lambda: pd.DataFrame({"a": [1, 2]}, index=pd.Index([0, 1], name="other"))))
+    out.append(("wrong_series_index_name", "schema", "series",
+                lambda: pa.SeriesSchema(int, index=pa.Index(int, name="idx"), name="s"),
+                lambda: pd.Series([1, 2], index=pd.Index([0, 1], name="other"), name="s")))
     out.append(("index_unique", "data", "dfs",
                 lambda: pa.DataFrameSchema({"a": C(int)}, index=pa.Index(int, unique=True)), lambda: pd.DataFrame({"a": [1, 2]}, index=[3, 3])))
     out.append(("series_index_check", "data", "series",
